@@ -1311,6 +1311,33 @@ mod c08 {
                 }
             }
         }
+        // (a'') pair faults: a sub-section version tag changed AND one byte of the boundary / unpacked-offset
+        // arrays changed (a validator that trusts a differently tagged section must still not accept offsets
+        // that disagree with the chunk data)
+        if seed.footer_kind == FOOT_V1 {
+            let f0 = seed.frames_end;
+            let nch = seed.frames.len();
+            let hv = f0 + 47; // hashes-section version byte
+            let bs = f0 + 52 + 32 * nch; // start of the boundaries section
+            let bv = bs + 7; // boundaries-section version byte
+            if bs + 12 + 8 * nch <= b.len() {
+                for (tag_name, tag_off) in [("hashes-version", hv), ("boundaries-version", bv)] {
+                    for tag_val in [0u8, 1, 2] {
+                        if b[tag_off] == tag_val {
+                            continue;
+                        }
+                        for off in (bs + 12)..(bs + 12 + 8 * nch) {
+                            for (opn, v) in [("^01", b[off] ^ 1), ("^10", b[off] ^ 0x10)] {
+                                let mut m = b.clone();
+                                m[tag_off] = tag_val;
+                                m[off] = v;
+                                push(format!("{tag_name}={tag_val}+byte[{off}]{opn}"), m, vec![]);
+                            }
+                        }
+                    }
+                }
+            }
+        }
         // (b) truncation at every offset
         for cut in 0..b.len() {
             push(format!("truncate@{cut}"), b[..cut].to_vec(), vec![]);
